@@ -571,11 +571,13 @@ func (c *Color) Fprintf(w io.Writer, format string, a ...interface{}) (n int, er
 	trStubEnsure("encoding/csv", "type Writer struct", `type Writer struct{ _ int }
 func NewWriter(w io.Writer) *Writer
 func (w *Writer) Write(record []string) error
-func (w *Writer) Flush()`)
+func (w *Writer) Flush()
+func (w *Writer) Error() error`)
 	trOpaque["*encoding/csv.Writer"] = "Csv.Writer"
 	trPrims["encoding/csv.NewWriter"] = trPrim{lean: "Csv.NewWriter"}
 	trPrims["(*encoding/csv.Writer).Write"] = trPrim{lean: "Csv.Writer.Write", mutRecv: true, results: true}
 	trPrims["(*encoding/csv.Writer).Flush"] = trPrim{lean: "Csv.Writer.Flush", mutRecv: true}
+	trPrims["(*encoding/csv.Writer).Error"] = trPrim{lean: "Csv.Writer.Error"} // pure: the sticky error of the writer (none over an in-memory sink)
 }
 
 // trTableImports: the prelude modules of this file, when the generated text uses them
